@@ -10,6 +10,7 @@
 // from /repo on every run (enums the contracts talk about).
 #![allow(unused_imports, unused_variables, dead_code, unused_mut, unreachable_code, unused_parens, non_snake_case)]
 use vstd::prelude::*;
+use vstd::std_specs::cmp::PartialOrdSpec;
 use std::ops::{Add, AddAssign, Sub, SubAssign};
 use std::cmp::Ordering;
 use std::fmt::{Debug, Display};
@@ -345,6 +346,40 @@ pub open spec fn comparable(l: GarnishDataType, r: GarnishDataType) -> bool {
     (l == GarnishDataType::Number && r == GarnishDataType::Number) || (l == GarnishDataType::Char && r == GarnishDataType::Char)
     || (l == GarnishDataType::Byte && r == GarnishDataType::Byte) || (l == GarnishDataType::CharList && r == GarnishDataType::CharList)
     || (l == GarnishDataType::ByteList && r == GarnishDataType::ByteList) || (l == GarnishDataType::Slice && r == GarnishDataType::Slice)
+}
+
+/// C12: the order of two lengths
+pub open spec fn nat_cmp(a: nat, b: nat) -> Ordering {
+    if a < b { Ordering::Less } else if a == b { Ordering::Equal } else { Ordering::Greater }
+}
+
+/// C12: lexicographic order of two sequences from position k on, the shorter prefix first; `None` as soon as
+/// two elements are incomparable (written from the property statement; the element order is T's own)
+pub open spec fn lex_cmp<T: PartialOrd>(ls: Seq<T>, rs: Seq<T>, k: int) -> Option<Ordering>
+    decreases ls.len() - k
+{
+    if k < 0 { None }
+    else if k >= ls.len() || k >= rs.len() { Some(nat_cmp(ls.len(), rs.len())) }
+    else { match ls[k].partial_cmp_spec(&rs[k]) { Some(Ordering::Equal) => lex_cmp(ls, rs, k + 1), Some(o) => Some(o), None => None } }
+}
+
+/// `s` is what the length reader `len_f` and the element getter `get_f` present for the value at `a` in state `st`
+pub open spec fn seq_model<Data: GarnishData, T, GetFunc: Fn(&Data, Data::Size, Data::Number) -> Result<T, Data::Error>, LenFunc: Fn(&Data, Data::Size) -> Result<Data::Size, Data::Error>>(
+    get_f: GetFunc, len_f: LenFunc, st: St<Data::Size, Data::Number, Data::Symbol, Data::Char, Data::Byte>, a: Data::Size, s: Seq<T>) -> bool {
+    (forall|d: &Data, rr: Result<Data::Size, Data::Error>| #![trigger len_f.ensures((d, a), rr)]
+        d.st() == st && len_f.ensures((d, a), rr) ==> (rr matches Ok(n) ==> Data::sv(n) == s.len()))
+    && (forall|d: &Data, i: Data::Number, rr: Result<T, Data::Error>| #![trigger get_f.ensures((d, a, i), rr)]
+        d.st() == st && get_f.ensures((d, a, i), rr) && 0 <= Data::nidx(i) < s.len() ==> (rr matches Ok(v) ==> v == s[Data::nidx(i)]))
+}
+
+/// lifting a sequence into `Option` (what `get_char_list_item` / `get_byte_list_item` hand to cmp_list) keeps the order
+pub proof fn lemma_lex_some<T: PartialOrd>(l: Seq<T>, r: Seq<T>, k: int)
+    ensures lex_cmp(l.map_values(|x: T| Some(x)), r.map_values(|x: T| Some(x)), k) == lex_cmp(l, r, k)
+    decreases l.len() - k
+{
+    if k >= 0 && k < l.len() && k < r.len() {
+        lemma_lex_some(l, r, k + 1);
+    }
 }
 
 /// C12: how each of the four instructions reads one Ordering
@@ -710,6 +745,8 @@ pub trait GarnishData: Sized {
     spec fn nidx(n: Self::Number) -> int;
     /// Number order / equality as the data object's PartialOrd / PartialEq implement them
     spec fn num_cmp(a: Self::Number, b: Self::Number) -> Option<Ordering>;
+    /// the number is a non-negative whole number usable as a list position (what counting up from zero produces)
+    spec fn is_idx(n: Self::Number) -> bool;
     spec fn num_eq(a: Self::Number, b: Self::Number) -> bool;
     spec fn num_zero() -> Self::Number;
     spec fn num_one() -> Self::Number;
@@ -767,6 +804,17 @@ pub trait GarnishData: Sized {
             forall|a: Self::Char, b: Self::Char, c: Option<Ordering>| #![auto] call_ensures(<Self::Char as PartialOrd>::partial_cmp, (&a, &b), c) ==> c == Self::chr_cmp(a, b),
             forall|a: Self::Byte, b: Self::Byte| #![auto] call_requires(<Self::Byte as PartialOrd>::partial_cmp, (&a, &b)),
             forall|a: Self::Byte, b: Self::Byte, c: Option<Ordering>| #![auto] call_ensures(<Self::Byte as PartialOrd>::partial_cmp, (&a, &b), c) ==> c == Self::byt_cmp(a, b),
+            // Char / Byte order is the data object's PartialOrd (vstd's PartialOrdSpec view of the same fact)
+            <Self::Char as PartialOrdSpec>::obeys_partial_cmp_spec(),
+            forall|a: Self::Char, b: Self::Char| #![auto] a.partial_cmp_spec(&b) == Self::chr_cmp(a, b),
+            <Self::Byte as PartialOrdSpec>::obeys_partial_cmp_spec(),
+            forall|a: Self::Byte, b: Self::Byte| #![auto] a.partial_cmp_spec(&b) == Self::byt_cmp(a, b),
+            // list positions: counting up from zero stays a position and agrees with nat order against sizes
+            Self::is_idx(Self::num_zero()),
+            forall|n: Self::Number| #![auto] Self::is_idx(n) ==> Self::nidx(n) >= 0,
+            forall|n: Self::Number, m: Self::Number| #![auto] Self::is_idx(n) && n.increment_spec() == Some(m) ==> Self::is_idx(m) && Self::nidx(m) == Self::nidx(n) + 1,
+            forall|s: Self::Size| #![auto] Self::is_idx(<Self::DataFactory as GarnishDataFactory<Self::Size, Self::Number, Self::Char, Self::Byte, Self::Symbol, Self::Error, Self::SizeIterator, Self::NumberIterator>>::size_to_number_spec(s)),
+            forall|a: Self::Number, b: Self::Number| #![auto] Self::is_idx(a) && Self::is_idx(b) ==> Self::num_cmp(a, b) == Some(nat_cmp(Self::nidx(a) as nat, Self::nidx(b) as nat)),
             // Number constants / conversions as indices
             forall|c: Self::Number| #![auto] call_ensures(<Self::Number as TypeConstants>::zero, (), c) ==> c == Self::num_zero(),
             forall|c: Self::Number| #![auto] call_ensures(<Self::Number as TypeConstants>::one, (), c) ==> c == Self::num_one(),
